@@ -13,7 +13,7 @@ FORBIDDEN = re.compile(r'\b(sorry|admit|native_decide|bv_decide|implemented_by|u
 
 # which Lean modules carry the property theorems of each property
 PROP_MODULES = {
-    'C01': ['Props.C01', 'Props.C01Stream'], 'C02': ['Props.C02'], 'C03': ['Props.C03Tables', 'Props.C03', 'Props.C03Message'], 'C04': ['Props.C04'],
+    'C01': ['Props.C01', 'Props.C01Stream'], 'C02': ['Props.C02', 'Props.C02Model', 'Props.C02ModelAll'], 'C03': ['Props.C03Tables', 'Props.C03', 'Props.C03Message'], 'C04': ['Props.C04'],
     'C05': ['Props.C05'], 'C06': ['Props.C06'], 'C07': ['Props.C07'], 'C08': ['Props.C08'], 'C09': ['Props.C09'],
     'C10': ['Props.C10'], 'C11': ['Props.C11'], 'C12': ['Props.C12'], 'C13': ['Props.C13'], 'C14': ['Props.C14'],
     'C15': ['Props.C15'], 'C16': ['Props.C16'],
